@@ -11,6 +11,9 @@ REPLAY = os.path.join(EVID, "replay")
 KNOWN = os.path.join(VERIF, "known_findings.txt")
 
 
+CURRENT = None
+
+
 def load_known():
     """known_findings.txt lines:
          finding: property=<id> key=<exact key> :: <what fails>
@@ -54,6 +57,8 @@ class Check:
         self.analysed = {}
         self.exceptions = []
         self.known = load_known()
+        global CURRENT
+        CURRENT = self
         self.assumptions = []
         self.trusted = []
         self.explanation = ""
@@ -98,9 +103,13 @@ class Check:
         sys.exit(2)
 
     # ---- finishing
-    def finish(self):
+    def finish(self, crashed=None):
         # floors: a rule that matched fewer instances than were confirmed by hand is broken
-        for name, r in self.rules.items():
+        # (not after a crash: the rules that did not run have matched nothing, which says nothing)
+        if crashed:
+            self.notes.append("the checker crashed before all rules had run (%s); the violations reported were "
+                              "established before that" % crashed)
+        for name, r in ([] if crashed else self.rules.items()):
             if r["instances"] < r["floor"]:
                 self.violations.append({
                     "rule": name, "key": "%s/floor" % name,
